@@ -554,6 +554,22 @@ def rule_bufcopy(repo):
 
 
 @guarded
+def rule_norec(repo):
+    """forward() integrates the WHOLE sequence it is given in one pass from one initial state.  A call of forward on itself (block-wise processing "to bound memory")
+    runs every block after the first through the reset / carry logic of a separate call: with reset=True each block restarts from the constructor state."""
+    res = RuleResult('C16.NOREC', 'IMUPreintegrator.forward does not call itself (self.forward(..) / self(..)): one call is one pass over all frames from one initial state',
+                     floor=1)
+    f = repo.func(IMU, CLS + '.forward')
+    hits = [c for c in paths.calls_in(f.node) if dotted(c.func) in ('self.forward', 'self.__call__') or (isinstance(c.func, ast.Name) and c.func.id == 'self')]
+    res.inst({'function': f.fq, 'recursive calls': [src(c)[:50] for c in hits]}, f.fq)
+    for c in hits:
+        res.add(Finding('C16.NOREC', f, '`%s`: forward processes its input block by block through itself; every block after the first goes through the reset / carry logic '
+                        'as if it were a new call (reset=True: restarts from the constructor state), so the result for more frames than one block is not the recursion '
+                        'from the initial state' % src(c)[:50], node=c, construct='forward calls itself'))
+    return res
+
+
+@guarded
 def rule_recur(repo):
     """dp <- dp + dv dt + 1/2 dR a dt^2 with dv the ACCUMULATED velocity increment and dR the ACCUMULATED rotation: in the vectorised form the position
     summand of frame k multiplies dt with the k-th entry of the cumulative velocity table (the output of the cumsum scan), and the acceleration terms are
@@ -597,7 +613,7 @@ def _rules_core(repo, tier):
     from ..effects import rule_pure
     from ..fresh import rule_fresh
     t = [(IMU, CLS + '.forward'), (IMU, CLS + '.integrate'), (IMU, CLS + '.predict'), (IMU, CLS + '.propagate_cov'), (IMU, CLS + '._check')]
-    return [rule_grav(repo), rule_scan(repo), rule_recur(repo), rule_bufcopy(repo), rule_stateax(repo), rule_covord(repo), rule_carry(repo), rule_rank(repo), rule_dir_comp(repo), rule_dep(repo), rule_init(repo), rule_cov(repo),
+    return [rule_grav(repo), rule_scan(repo), rule_recur(repo), rule_bufcopy(repo), rule_norec(repo), rule_stateax(repo), rule_covord(repo), rule_carry(repo), rule_rank(repo), rule_dir_comp(repo), rule_dep(repo), rule_init(repo), rule_cov(repo),
             rule_pure(repo, 'C16.PURE', 'the integrator does not write in place into the measurement tensors it is given (dt, gyro, acc, rot, init_state): '
                       'feeding the same stream again, whole or in chunks, starts from the same data', t),
             rule_fresh(repo, 'C16.FRESH', 'nothing the integrator writes in place is loaded from the integrator object (the carried state is rebound, '
